@@ -647,6 +647,41 @@ def _rel_top(n):
     return ".".join(reversed(parts))
 
 
+def _check_model_view(S, model, opi, seen):
+    """Through the model: every leaf parameter of the root tree is addressable by its key relative to the root and
+    reports its current value; a key that was addressable earlier and no longer resolves raises KeyError (a model
+    that remembers parameter objects must notice removals and replacements)."""
+    out = S.out
+    now = {}
+    for n, _d in _walk(S.root):
+        if n is not S.root and n.cls != "map":
+            now[_rel(S.root, n)] = n
+    for key, n in now.items():
+        try:
+            got = model.get_parameter(key)
+        except Exception as e:
+            out.fail("model-get-parameter", {"op": opi, "key": key, "raised": type(e).__name__ + ": " + str(e)[:120]})
+            return False
+        if not (got is n.obj.value or _same(got, n.value)):
+            out.fail("model-get-parameter-stale", {"op": opi, "key": key, "got": _enc_obs(got), "want": _enc_obs(n.value)})
+            return False
+    for key in sorted(seen - set(now)):
+        if _resolve(S.root, key) is not None:
+            continue                      # the key now names a map
+        try:
+            model.get_parameter(key)
+        except KeyError:
+            continue
+        except Exception as e:
+            out.fail("unexpected-exception:get:" + type(e).__name__, {"op": opi, "key": key})
+            return False
+        out.fail("model-serves-removed-key", {"op": opi, "key": key})
+        return False
+    if len(seen) < 200:
+        seen.update(now)
+    return True
+
+
 def _check_all(S, opi, memb_kind="children-membership"):
     """the per-op invariant over the root tree and all detached subtrees; False when a discrepancy was booked."""
     out = S.out
@@ -821,6 +856,7 @@ def run_case(case):
     P = env["P"]
     out = Outcome()
     S = _State(out)
+    model_seen = set()
     model = env["Model"](env["Sim"]("sim"))
     if case.get("root") is None:
         robj = model.input_parameters
@@ -1084,6 +1120,8 @@ def run_case(case):
         if out.disc:
             break
         if not _check_all(S, opi, memb_kind):
+            break
+        if not _check_model_view(S, model, opi, model_seen):
             break
 
     for c in classes:
